@@ -315,7 +315,7 @@ def setup(concrete):
     pass
 
 
-def make_takeover_bmc(lock_cls):
+def make_takeover_bmc(lock_cls, K=2, depth=12):
     def run():
         from envsum import lockbmc as L
         t0 = time.time()
@@ -324,7 +324,7 @@ def make_takeover_bmc(lock_cls):
         if aut["conflicts"] or not aut["flow_ok"]:
             res["inconclusive"] = "call-site quotient rejected"
             return res
-        r = L.bmc(aut, 2, 12, crash=True, rounds=1, step_delay=None, hold_bound=2, timeout_ms=900000)
+        r = L.bmc(aut, K, depth, crash=True, rounds=1, step_delay=None, hold_bound=2, timeout_ms=1500000)
         res["queries"], res["solver_s"] = r["queries"], r["solver_s"]
         res["result"] = {k: v for k, v in r["result"].items() if not k.endswith("_trace")}
         out = r["result"]
@@ -332,7 +332,7 @@ def make_takeover_bmc(lock_cls):
         for prop in ("mutual_exclusion", "release_raises"):
             if out[prop] == "sat":
                 tr = out[prop + "_trace"]
-                viol, _ = L.replay(lock_cls, tr, 2, True, 1)
+                viol, _ = L.replay(lock_cls, tr, K, True, 1)
                 validated += 1
                 if viol:
                     res["cex"].append({"key": f"{lock_cls}:dead-holder:two-survivors-take-over:{prop}", "pre_replayed": True, "values": {}, "choices": [],
@@ -345,9 +345,9 @@ def make_takeover_bmc(lock_cls):
         if out["witness_all_done"] != "sat":
             # bounded liveness: survivors must be able to take the stale lock over and finish
             res["cex"].append({"key": f"{lock_cls}:dead-holder:survivors-never-finish", "pre_replayed": False, "values": {}, "choices": [], "notes": {}, "kind": "bmc",
-                               "message": f"with a dead lock holder no schedule lets the survivors finish within 12 macro steps ({out['witness_all_done']})"})
+                               "message": f"with a dead lock holder no schedule lets the survivors finish within {depth} macro steps ({out['witness_all_done']})"})
         res["traces_validated_against_impl"] = validated
-        res["samples"] = [{"dead_holder": True, "survivors": 2, "result": res["result"]}]
+        res["samples"] = [{"dead_holder": True, "survivors": K, "result": res["result"]}]
         res["wall_s"] = time.time() - t0
         return res
     return run
@@ -406,6 +406,12 @@ def obligations(tier):
         obs.append(Obligation(f"takeover-bmc-{short}", None, None, CODE, custom=make_takeover_bmc(cls),
                               bounds=dict(dead_holder=1, survivors=2, macro_steps=12, timing="arbitrary"),
                               describe=f"{cls}: two survivors and a dead lock holder, all schedules and timings (BMC, replayed)"))
+    if not q:
+        for cls in ("JournalFileSymlinkLock", "JournalFileOpenLock"):
+            short = "symlink" if "Symlink" in cls else "open"
+            obs.append(Obligation(f"takeover-bmc-{short}-k3", None, None, CODE, custom=make_takeover_bmc(cls, 3, 14),
+                                  bounds=dict(dead_holder=1, survivors=3, macro_steps=14, timing="arbitrary"),
+                                  describe=f"{cls}: three survivors and a dead lock holder (BMC, replayed)"))
     from harness.c07 import make_bmc
     for cls in ("JournalFileSymlinkLock", "JournalFileOpenLock"):
         short = "symlink" if "Symlink" in cls else "open"
